@@ -315,6 +315,124 @@ def _opt_const(f, t):
     return t
 
 
+def _flag_formula(b, t, F, is_bucket_bound, depth=0):
+    """Boolean formula of term t over the atoms F (the flag's current value), SP / INF (is_sign_positive / is_infinite of the current bucket's bound); None if not understood.
+    Looks through `?` / Ok / Continue wrappers and through locals assigned on the two arms of an if."""
+    if depth > 10 or not isinstance(t, tuple) or not t:
+        return None
+    t = peel(t, transparent=[])
+    if t == F:
+        return "F"
+    if t[0] == "const" and t[1] in ("true", "false"):
+        return t[1] == "true"
+    if t[0] == "unop" and t[1] == "Not":
+        x = _flag_formula(b, t[2], F, is_bucket_bound, depth + 1)
+        return None if x is None else ("not", x)
+    if t[0] == "binop" and t[1] in ("BitOr", "BitAnd"):
+        x, y = _flag_formula(b, t[2], F, is_bucket_bound, depth + 1), _flag_formula(b, t[3], F, is_bucket_bound, depth + 1)
+        return None if x is None or y is None else ("or" if t[1] == "BitOr" else "and", x, y)
+    if t[0] == "binop" and t[1] == "Eq":
+        infs = [z for z in (t[2], t[3]) if is_pos_inf_const(z)]
+        ubs = [z for z in (t[2], t[3]) if is_bucket_bound(z)]
+        return ("and", "SP", "INF") if len(infs) == 1 and len(ubs) == 1 else None
+    if is_call(t, ["f64::is_sign_positive", "f64::is_infinite"]) and is_bucket_bound(t[2][0]):
+        return "SP" if strip_generics(t[1]).endswith("is_sign_positive") else "INF"
+    if t[0] == "field" and str(t[2]) == "0" and isinstance(t[1], tuple) and t[1][0] == "downcast" and t[1][2] in ("Continue", "Ok", "Some"):
+        inner = peel(t[1][1], transparent=[])
+        if is_call(inner, "Try::branch"):
+            inner = peel(inner[2][0], transparent=[])
+        return _flag_formula(b, inner, F, is_bucket_bound, depth + 1)
+    if t[0] == "agg" and (t[2].endswith("Result::Ok") or t[2].endswith("ControlFlow::Continue")) and t[3]:
+        return _flag_formula(b, t[3][0], F, is_bucket_bound, depth + 1)
+    if t[0] == "var":
+        def term_of(d):
+            return b.term_rvalue(d[3], (d[1], d[2])) if d[0] == "assign" else b.term_call(d[1])
+        alld = [d for d in b.defs().get(t[1], []) if d[0] in ("assign", "call") and not (d[0] == "call" and is_call(b.term_call(d[1]), "FromResidual::from_residual"))]
+        if len(alld) != len([d for d in b.defs().get(t[1], []) if not (d[0] == "call" and is_call(b.term_call(d[1]), "FromResidual::from_residual"))]):
+            return None
+        oks = [d for d in alld if not (lambda a: isinstance(a, tuple) and a and a[0] == "agg" and a[2].endswith("Result::Err"))(term_of(d))]
+        if len(oks) == 1:
+            return _flag_formula(b, term_of(oks[0]), F, is_bucket_bound, depth + 1)
+        if len(oks) == 2:
+            d1, d2 = oks
+            for bi in b.reachable_blocks():
+                be = b.bool_edges(bi)
+                if not be:
+                    continue
+                for (x, y) in ((d1, d2), (d2, d1)):
+                    if b.edge_dominates(bi, be[1], x[1]) and b.edge_dominates(bi, be[2], y[1]):
+                        c_ = _flag_formula(b, be[0], F, is_bucket_bound, depth + 1)
+                        tx = _flag_formula(b, term_of(x), F, is_bucket_bound, depth + 1)
+                        ty = _flag_formula(b, term_of(y), F, is_bucket_bound, depth + 1)
+                        if c_ is not None and tx is not None and ty is not None:
+                            return ("ite", c_, tx, ty)
+        return None
+    return None
+
+
+def _formula_eval(e, env):
+    if isinstance(e, bool):
+        return e
+    if isinstance(e, str):
+        return env[e]
+    if e[0] == "not":
+        return not _formula_eval(e[1], env)
+    if e[0] == "or":
+        return _formula_eval(e[1], env) or _formula_eval(e[2], env)
+    if e[0] == "and":
+        return _formula_eval(e[1], env) and _formula_eval(e[2], env)
+    if e[0] == "ite":
+        return _formula_eval(e[2], env) if _formula_eval(e[1], env) else _formula_eval(e[3], env)
+    raise ValueError(e)
+
+
+def _formula_is(e, want):
+    import itertools
+    for F_, sp, inf in itertools.product((False, True), repeat=3):
+        env = {"F": F_, "SP": sp, "INF": inf}
+        if _formula_eval(e, env) != want(env):
+            return False
+    return True
+
+
+def _accumulated_inf_flag(b, cnd, h_of, region):
+    """The condition of the +Inf line is a flag accumulated BY VALUE over the buckets (a fold / try_fold accumulator, `seen = seen || is_pos_inf`): it starts as the literal false
+    inside the per-sample region and every other definition is  flag OR (bound is +Inf)  of the bucket being written.  Returns the flag's initialisation blocks, or None."""
+    leaves, todo, seen = [], [cnd], set()
+    while todo and len(seen) < 30:
+        for x in subterms(todo.pop()):
+            if isinstance(x, tuple) and len(x) == 2 and x[0] == "var" and x[1] not in seen:
+                seen.add(x[1])
+                if b.local_ty(x[1]) in ("bool", "?"):
+                    leaves.append(x)
+                else:
+                    todo.extend(b.var_alts(x[1]))
+    for F in leaves:
+        def is_bucket_bound(z):
+            z = peel(z)
+            if not is_call(z, ["Bucket::upper_bound", "get_upper_bound"]):
+                return False
+            e = elem_of(peel(z[2][0]))
+            return bool(e) and is_call(e[0], "get_bucket") and h_of(e[0][2][0]) and not [a for a in e[1] if a not in ("iter", "into_iter")]
+        fc = _flag_formula(b, cnd, F, is_bucket_bound)
+        if fc is None or not _formula_is(fc, lambda env: env["F"]):
+            continue
+        defs = b.defs().get(F[1], [])
+        if not defs or any(d[0] != "assign" for d in defs):
+            continue
+        inits, ok = [], True
+        for d in defs:
+            t = b.term_rvalue(d[3], (d[1], d[2]))
+            fm = _flag_formula(b, t, F, is_bucket_bound)
+            if fm is False:
+                inits.append(d[1])
+            elif fm is None or isinstance(fm, bool) or not _formula_is(fm, lambda env: env["F"] or (env["SP"] and env["INF"])):
+                ok = False
+        if ok and inits and len(inits) < len(defs) and all(x in region for x in inits):
+            return inits
+    return None
+
+
 def _any_bucket_is_pos_inf(f, t, h_of):
     """t = Iterator::any(<iteration over get_bucket(h)>, |b| b.upper_bound() is +Inf)."""
     src = peel(t[2][0], transparent=["slice::iter", "IntoIterator::into_iter", "Deref::deref"])
@@ -446,6 +564,10 @@ def rule_R4(ctx, f):
                         neg = False
                         if cnd[0] == "unop" and cnd[1] == "Not":
                             cnd, neg = cnd[2], True
+                        acc_inits = _accumulated_inf_flag(b, cnd, h_of, reg) if not (cnd[0] == "var") else None
+                        if acc_inits:
+                            guard = b.edge_dominates(bi, be[2], ci.bb)
+                            any_form = guard and b.all_paths_pass(arms["HISTOGRAM"], acc_inits, dst_set={cb.bb, ci.bb})
                         if is_call(cnd, "Iterator::any") and _any_bucket_is_pos_inf(f, cnd, h_of):
                             # `let inf_seen = h.get_bucket().iter().any(|b| b.upper_bound() == f64::INFINITY)`: computed from this sample's buckets, nothing to reset
                             guard = b.edge_dominates(bi, be[2], ci.bb)
